@@ -52,11 +52,19 @@ class TxIds(Family):
         for s in deviation_sets(field_points(nin, nout), k):
             for w in witness_assignments(nin):
                 yield {'nin': nin, 'nout': nout, 'set': s, 'w': w}
+        if nin == 1:
+            # coinbase-shaped transactions (null prevout), with and without a witness (the reserved value of BIP141 is an
+            # ordinary witness stack as far as the identifiers go)
+            for s in deviation_sets([p for p in field_points(nin, nout) if not p[0].startswith('vin.0.hash') and not p[0].startswith('vin.0.n')], 1):
+                for w in witness_assignments(nin):
+                    yield {'nin': nin, 'nout': nout, 'set': s, 'w': w, 'cb': 1}
 
     def check(self, case):
         from bitcoin.core import CTransaction, CMutableTransaction, CTxWitness, CTxInWitness
         from bitcoin.core.script import CScriptWitness
         m = C.tx_from_case(case)
+        if case.get('cb'):
+            m['vin'][0].update(hash=b'\x00' * 32, n=0xffffffff)
         w = case['w']
         mode = 'auto'
         if w == 'absent':
